@@ -25,6 +25,13 @@ def fixed_ids():
 
 
 FIXED = fixed_ids()
+# witnesses (known/C01.ndjson ids) that a fix id covers when it is not simply the same id
+FIX_COVERS = {'K09': ['K09a', 'K09b'], 'K13': ['K13a', 'K13b'], 'K15': ['K15a', 'K15b'], 'K19': ['K19a', 'K19b'], 'K17': ['K17d', 'K17e'],
+              'K08': ['K08a', 'K08b'], 'K05': ['K05', 'K05b']}
+
+
+def witness_fixed(wid):
+    return any(wid == f or wid in FIX_COVERS.get(f, []) for f in FIXED)
 
 
 def _ex(pattern, note):
@@ -501,11 +508,32 @@ _ex(r'0[xX][0-9a-fA-F_]*[eEbB][0-9a-fA-F_]*n?\s*(\?|\)|&&|\|\||:)|!\s*0[xX][0-9a
 _ex(r'function\b[^(]*\([^)]*\b(undefined|NaN|Infinity)\b[^)]*\)\s*\{|\b(var|let|const)\s+([^;=]*,\s*)?(undefined|NaN|Infinity)\b|'
     r'\(([^()]*)\b(undefined|NaN|Infinity)\b[^()]*\)\s*=>|\b(undefined|NaN|Infinity)\s*=>',
     'K16 local bindings named undefined/NaN/Infinity (treated as the global constants)')
-_ex(r'\bvoid\s*\((?!\s*0\s*\))|\bvoid\s*(class\b|[\w.$]+\s*([-+*/%<>&|^]|instanceof\b|in\b|[!=]=)|[-+~!]|typeof\b|[\[{`])|'
-    r'\bif\s*\([^;{}]*[-+*/%<>&|^!~=][^;{}]*\)\s*' + _EMPTYBODY + r'(\s*else\s*' + _EMPTYBODY + r')?(?!\s*else)|'
-    r'\{\s*(let|const)\s+\w+\s*=\s*[^;{}]*[-+*/%<>&|^!~=][^;{}]*[;\s]*\}',
-    'K17 operator/class/literal expressions in discarded position (void X, if(X);, if(X){let y=..}, {let x=X}): hasSideEffects does '
-    'not look into the operands of a binary expression, so calls/valueOf/throws/static initialisers inside are dropped')
+_K17_VOID = r'\bvoid\s*(\((?!\s*0\s*\))[^;\n]*|class\b[^;\n]*|[\w.$]+\s*(?:[-+*/%<>&|^]|instanceof\b|in\b|[!=]=)[^;\n]*|[-+~!][^;\n]*|typeof\b[^;\n]*|[\[{`][^;\n]*)'
+_K17_IF = r'\bif\s*\(([^;{}]*[-+*/%<>&|^!~=][^;{}]*)\)\s*' + _EMPTYBODY + r'(?:\s*else\s*' + _EMPTYBODY + r')?(?!\s*else)'
+_K17_LET = r'\{\s*(?:let|const)\s+\w+\s*=\s*([^;{}]*[-+*/%<>&|^!~=][^;{}]*)[;\s]*\}'
+_K17_EFFECT = re.compile(r'[\w$)\]]\s*\(|[\w$)\]]\s*\??\.\s*[A-Za-z_$#]|[\w$)\]]\s*\[|(?<![=!<>])=(?![=>])|\+\+|--|\bnew\b|\bdelete\b|`|\byield\b|\bawait\b')
+
+
+def _k17(src, residual_only):
+    """operator/class/literal expressions in discarded position.  residual_only: only those that are still dropped once
+    hasSideEffects looks into operands (fix C01-K17), i.e. expressions without any call/member access/assignment/update/new"""
+    for rx in (_K17_VOID, _K17_IF, _K17_LET):
+        for m in re.finditer(rx, src):
+            if not residual_only:
+                return True
+            e = m.group(1)
+            if re.search(r'\bclass\b', e) or not _K17_EFFECT.search(e):
+                return True
+    return False
+
+
+if 'K17' in FIXED:
+    _ex(lambda src: _k17(src, True), 'K17r operator expressions over bare identifiers/literals, and class expressions, in discarded position '
+        '(void X, if(X);, if(X){let y=..}, {let x=X}): still dropped although they can call valueOf / throw (undeclared identifier, '
+        'instanceof, BigInt mixing) / run static initialisers (util_test.go pins a+5 as side-effect free)')
+else:
+    _ex(lambda src: _k17(src, False), 'K17 operator/class/literal expressions in discarded position (void X, if(X);, if(X){let y=..}, {let x=X}): '
+        'hasSideEffects does not look into the operands of a binary expression, so calls/valueOf/throws/static initialisers inside are dropped')
 _ex(r'(\|\||&&|\?\?)=', 'K19 logical assignment operators ||= &&= ??= (missing from the precedence tables: a||=(b,c) -> a||=b,c; '
                         'not counted as side effect: void(a||=b) -> void 0)')
 _ex(r"""(-|\*|/|%)\s*("[^"\n]*"|'[^'\n]*')\s*\+\s*["'`]""", 'K18 string literal + string literal after a non-additive operator (a-"1"+"2" -> a+"12")')
